@@ -12,7 +12,14 @@ with pandas (numpy's global generator seeded from the run's PRNG).  On every rea
   the contract assumed of `DataFrame.sample` (`picksOK`) and recomputes the deterministic part
   (`sampleAlternatives`, `flattenRow`, `defineVars`, `sampledLL`, `fullLL`), which must agree;
 * with complete sampling the likelihood of `GenerateModel.get_logit()` (real engine) must equal
-  the likelihood of `models.loglogit` on the full choice set built by the harness (real engine).
+  the likelihood of `models.loglogit` on the full choice set built by the harness (real engine);
+  the same for `get_nested_logit` vs `models.lognested` (several nest configurations per merged
+  database: labels distinct / absent / repeated / equal to an automatic one, shared or numeric
+  nest parameters, old tuple syntax; the Lean model `nestedSampledLL` is compared with the engine
+  on complete and partial samples) and for `get_cross_nested_logit` vs `models.logcnl`;
+* `Partition` is compared with the model and the oracle (non-empty, pairwise disjoint, union =
+  full set) on random lists of 1-6 segments with the fault at any position and on every list of
+  at most 3 (thorough: 4) segments over three ids.
 """
 
 from __future__ import annotations
@@ -32,15 +39,19 @@ MANIFEST = dict(
     text='Proof (Lean 4): for every partition, choice and outcome of the random draws (contract: n distinct rows of the frame sampled) '
     'sample_alternatives lists the chosen alternative first, has no duplicate, exactly k rows per stratum, each row in its stratum with the term '
     'log k - log n = ln(k/n) (C19.protocol_facts, correction_is_log_ratio), second sample with weights n/k (mev_facts); check_partition and Partition '
-    'accept exactly the valid inputs (context_validation, partition_validity); generated column names never collide and combined variable / utility i read '
+    'accept exactly the valid inputs (context_validation, partition_validity: every pair of segments, neighbours or not); generated column names never collide and combined variable / utility i read '
     'the attributes of sampled alternative i (column_names_injective, combined_own_attributes, utility_reads_index_i); with complete sampling every '
     'protocol-conforming result is a permutation of the choice set, all corrections are 0 and the sampled logit log likelihood equals the full one over R '
-    '(full_sample_perm, full_sample_corrections_zero, full_sample_equiv, full_sample_equiv_code). Tie: the relation and the deterministic model are evaluated by the Lean '
-    'driver on every real sample (many seeds); real-engine likelihood of get_logit vs loglogit on the full choice set.',
+    '(full_sample_perm, full_sample_corrections_zero, full_sample_equiv, full_sample_equiv_code); in the generated nested logit every nest reads its own MEV sum from the dictionary keyed by its '
+    'alternatives, whatever the labels (nest_sum_lookup), and with complete sampling of both samples its log likelihood equals the nested logit on the full choice set over R '
+    '(nested_full_sample_equiv, nested_full_sample_equiv_code). Tie: the relation and the deterministic model are evaluated by the Lean '
+    'driver on every real sample (many seeds); Partition against the model on random lists of 1-6 segments with faults at any position and bounded-exhaustively (all lists of <= 3/4 segments over 3 ids); '
+    'real-engine likelihood of get_logit / get_nested_logit / get_cross_nested_logit vs loglogit / lognested / logcnl on the full choice set; get_nested_logit vs the Lean model on complete and partial samples '
+    '(nest labels distinct, absent, repeated, equal to an automatic one; shared or numeric nest parameters; old tuple syntax).',
     design='DESIGN.md §5 C19',
     technique='Lean 4 theorems over an executable model of the sampling protocol + relation evaluated on real samples + differential correspondence through the real engine',
-    note='Partial: pandas DataFrame.sample is treated relationally (its contract is monitored on every real sample); nested / cross-nested generated models '
-    'are only checked numerically (nested logit, complete sampling of both samples, vs models.lognested; no Lean model of the MEV terms; cross-nested not exercised); '
+    note='Partial: pandas DataFrame.sample is treated relationally (its contract is monitored on every real sample); the cross-nested generated model '
+    'is only checked numerically (complete sampling of both samples, vs models.logcnl; no Lean model of its MEV terms); '
     'IEEE rounding of log/exp is not modelled (tolerances stated). One defect is listed as known finding F-C19-1 (rename_elementary renames a shared Variable object twice when '
     'columns X and X_<i> exist; C19.shared_object_renamed_twice is the witness, the model is the repaired behaviour).',
 )
@@ -688,83 +699,195 @@ def check_merge(ctx, res, case):
         ctx.batch.add_many(reqs, cb)
 
 
-def check_nested_full(ctx, res, case, rng, nests_def=None):
-    """complete sampling (both samples): the nested logit generated on the sample equals the nested
-    logit on the full choice set (numerical relation through the real engine; no Lean model of the
-    MEV terms)"""
-    import pandas as pd
-    import biogeme.database as bdb
-    from biogeme.expressions import Variable, Beta
-    from biogeme import models
+NEST_LABELS = ['zone', 'N', '', 'nest_1', 'nest_2', 'nest_3', 'n0', 'b10', 'b2']
+MU_VALUES = [1.0, 1.25, 1.5, 2.0, 3.0]
+
+
+def gen_nests(rng, pool_ids):
+    """nests of a nested logit over (part of) the given alternatives: 1-3 disjoint nests of 1..n
+    members listed in arbitrary order; labels are free text (distinct, absent, all the same, equal to
+    an automatically given 'nest_k', drawn with repetition); nest parameters are distinct Betas, one
+    Beta shared by all nests, or plain numbers; object syntax or the old tuple syntax"""
+    pool = list(pool_ids)
+    rng.shuffle(pool)
+    n_nests = rng.choice([1, 2, 2, 2, 3, 3])
+    groups = []
+    for j in range(n_nests):
+        if not pool:
+            break
+        lo = 1 if rng.random() < 0.2 else 2
+        size = min(len(pool), rng.randint(lo, max(lo, len(pool) // 2)))
+        groups.append(pool[:size])
+        pool = pool[size:]
+    groups = [g for g in groups if g]
+    mu_mode = rng.choice(['beta', 'beta', 'shared', 'float'])
+    shared_mu = rng.choice(MU_VALUES)
+    name_mode = rng.choice(['distinct', 'none', 'same', 'same', 'auto_clash', 'pool'])
+    label = rng.choice(NEST_LABELS)
+    nests = []
+    for j, g in enumerate(groups):
+        if name_mode == 'distinct':
+            name = f'n{j}'
+        elif name_mode == 'none':
+            name = None
+        elif name_mode == 'same':
+            name = label
+        elif name_mode == 'auto_clash':
+            # a nest without label receives 'nest_<position>'; another nest carries that very label
+            name = None if j == 0 else 'nest_1'
+        else:
+            name = rng.choice(NEST_LABELS + [None])
+        nests.append({'mu': shared_mu if mu_mode == 'shared' else rng.choice(MU_VALUES), 'alts': [int(a) for a in g], 'name': name})
+    if name_mode == 'auto_clash' and len(nests) >= 2 and rng.random() < 0.5:
+        nests[0]['name'], nests[-1]['name'] = f'nest_{len(nests)}', None
+    syntax = 'tuples' if all(n['name'] is None for n in nests) and rng.random() < 0.5 else 'objects'
+    return {'syntax': syntax, 'mu_mode': mu_mode, 'nests': nests}
+
+
+def norm_nests(nd):
+    """accepts the older replay form [(mu, members), ...]"""
+    if isinstance(nd, dict):
+        return {'syntax': nd.get('syntax', 'objects'), 'mu_mode': nd.get('mu_mode', 'beta'),
+                'nests': [{'mu': float(n['mu']), 'alts': [int(a) for a in n['alts']], 'name': n.get('name')} for n in nd['nests']]}
+    return {'syntax': 'objects', 'mu_mode': 'beta',
+            'nests': [{'mu': float(mu), 'alts': [int(a) for a in m], 'name': f'n{j}'} for j, (mu, m) in enumerate(nd)]}
+
+
+def build_nested_nests(case, nd):
+    """real NestsForNestedLogit from the abstract description (fresh objects at every call)"""
+    from biogeme.expressions import Beta
     from biogeme.nests import OneNestForNestedLogit, NestsForNestedLogit
+
+    betas = {}
+
+    def mu_of(j, n):
+        if nd['mu_mode'] == 'float':
+            return float(n['mu'])
+        nm = 'MU' if nd['mu_mode'] == 'shared' else f'MU{j}'
+        if nm not in betas:
+            betas[nm] = Beta(nm, float(n['mu']), 1.0, None, 0)
+        return betas[nm]
+
+    if nd['syntax'] == 'tuples':
+        return NestsForNestedLogit(choice_set=list(case['ids']), tuple_of_nests=tuple((mu_of(j, n), list(n['alts'])) for j, n in enumerate(nd['nests'])))
+    return NestsForNestedLogit(choice_set=list(case['ids']), tuple_of_nests=tuple(
+        OneNestForNestedLogit(nest_param=mu_of(j, n), list_of_alternatives=list(n['alts']), name=n['name']) for j, n in enumerate(nd['nests'])))
+
+
+def both_complete(case):
+    return all(k == len(s) for s, k in strata_of(case)) and all(k == len(s) for s, k in strata_of(case, 'mev'))
+
+
+def check_nested(ctx, res, case, rng, configs=None, n_configs=3):
+    """nested logit generated on the sample (`GenerateModel.get_nested_logit`), several nest
+    configurations on one merged database:
+
+    * oracle (property statement): with complete sampling of both samples its log likelihood equals
+      `models.lognested` on the full choice set (real engine on both sides);
+    * model: `Sampling.nestedSampledLL` evaluated by the Lean driver on the real merged row must
+      agree with the engine (complete or partial sampling)."""
+    from biogeme.expressions import Variable
+    from biogeme import models
     from biogeme.sampling_of_alternatives import ChoiceSetsGeneration, GenerateModel
 
-    if nests_def is None:
+    if configs is None:
         mev_ids = sorted(set().union(*[set(s) for s in case['mev']['segments']]))
-        pool = list(mev_ids)
-        rng.shuffle(pool)
-        n_nests = rng.randint(1, 2)
-        nests_def = []
-        for j in range(n_nests):
-            size = rng.randint(2, max(2, len(pool) // 2)) if len(pool) >= 2 else 0
-            members, pool = pool[:size], pool[size:]
-            if len(members) >= 2:
-                nests_def.append((rng.choice([1.0, 1.25, 1.5, 2.0, 3.0]), sorted(members)))
-    nests_def = [(float(mu), list(m)) for mu, m in nests_def]
-    if not nests_def:
+        configs = [gen_nests(rng, mev_ids) for _ in range(n_configs)]
+    configs = [norm_nests(c) for c in configs]
+    configs = [c for c in configs if c['nests']]
+    if not configs:
         return
-    sub = {'kind': 'nested', 'case': slim(case), 'nests': nests_def}
-
-    def mk_nests():
-        return NestsForNestedLogit(choice_set=list(case['ids']),
-                                   tuple_of_nests=tuple(OneNestForNestedLogit(nest_param=Beta(f'MU{j}', mu, 1.0, None, 0), list_of_alternatives=list(m), name=f'n{j}')
-                                                        for j, (mu, m) in enumerate(nests_def)))
-
+    complete = both_complete(case)
+    base = {'kind': 'nested', 'case': slim(case)}
+    sampled, refs = {}, {}
     try:
         with core.scratch():
             context = build_context(case)
             gen = ChoiceSetsGeneration(context)
             np.random.seed(case['np_seed'])
             db = gen.sample_and_merge(recycle=False)
-            ll = GenerateModel(context).get_nested_logit(mk_nests())
-            sampled = [float(v) for v in np.atleast_1d(ll.get_value_c(database=db, prepare_ids=True))]
-        # reference on the full choice set
-        cols = case['cols']
-        comb = dict((n, f) for n, f in case['combined'])
-        data = {case['choice_col']: [float(c) for c in case['choices']]}
-        for j, c in enumerate(case['icols']):
-            data[c] = [r[j] for r in case['irows']]
-        for p, vals in enumerate(case['values']):
-            for j, c in enumerate(cols):
-                data[f'F{p}__{c}'] = [vals[j]] * len(case['choices'])
-
-        def subst(f, p, depth=0):
-            if f[0] == 'v':
-                if f[1] in cols:
-                    return ['v', f'F{p}__{f[1]}']
-                if f[1] in comb and depth < 5:
-                    return subst(comb[f[1]], p, depth + 1)
-                return f
-            if f[0] in ('c', 'b'):
-                return f
-            return [f[0]] + [subst(x, p, depth) for x in f[1:]]
-
-        with core.scratch():
-            fdb = bdb.Database('full', pd.DataFrame(data))
-            V = {int(i): build_expr(subst(case['utility'], p)) for p, i in enumerate(case['ids'])}
-            full = models.lognested(V, None, mk_nests(), Variable(case['choice_col']))
-            ref = [float(v) for v in np.atleast_1d(full.get_value_c(database=fdb, prepare_ids=True))]
+            data = db.data.copy()
+            attributes = sorted(context.attributes)
+            J, J2 = context.total_sample_size, context.second_sample_size
+            model = GenerateModel(context)
+            for c, nd in enumerate(configs):
+                try:
+                    ll = model.get_nested_logit(build_nested_nests(case, nd))
+                    sampled[c] = [float(v) for v in np.atleast_1d(ll.get_value_c(database=db, prepare_ids=True))]
+                except Exception as e:  # noqa: BLE001
+                    sampled[c] = e
+        if complete:
+            for c, nd in enumerate(configs):
+                if isinstance(sampled[c], Exception):
+                    continue
+                refs[c] = full_reference(case, lambda V, choice, nd=nd: models.lognested(V, None, build_nested_nests(case, nd), choice))
     except Exception as e:  # noqa: BLE001
-        res.count({'nested_raises': sub['nests'], 'seed': case['np_seed']})
-        res.violate(f'get_nested_logit / lognested raises on a valid context: {type(e).__name__}: {e}', sub, core.exc_kind(e), 'log likelihoods',
-                    where='GenerateModel.get_nested_logit')
+        res.count({'nested_raises': configs, 'seed': case['np_seed']})
+        res.violate(f'sample_and_merge / lognested raises on a valid context: {type(e).__name__}: {e}'[:300], {**base, 'nests': configs[0]}, core.exc_kind(e),
+                    'log likelihoods', where='GenerateModel.get_nested_logit')
         return
-    for r, (a, b) in enumerate(zip(sampled, ref)):
-        res.count({'nested': nests_def, 'segments': case['segments'], 'row': r, 'seed': case['np_seed']}, nontrivial=True)
-        res.tally('nested_full_sample_equiv_checked')
-        if not close(a, b, 1e-8, 1e-8):
-            res.violate('complete sampling: log likelihood of get_nested_logit() differs from the nested logit on the full choice set',
-                        {**sub, 'row': r}, a, b, where='GenerateModel.get_nested_logit')
+    names = list(data.columns)
+    for c, nd in enumerate(configs):
+        sub = {**base, 'nests': nd}
+        labels = [n['name'] for n in nd['nests']]
+        res.tally(f'nested:nests={len(nd["nests"])}')
+        res.tally('nested:labels ' + ('absent' if all(x is None for x in labels) else 'repeated' if len(set(labels)) < len(labels) else 'distinct'))
+        res.tally(f'nested:mu {nd["mu_mode"]}')
+        if isinstance(sampled[c], Exception):
+            e = sampled[c]
+            res.count({'nested_raises': nd, 'seed': case['np_seed']})
+            res.violate(f'get_nested_logit raises on a valid context: {type(e).__name__}: {e}'[:300], sub, core.exc_kind(e), 'a log likelihood',
+                        where='GenerateModel.get_nested_logit')
+            continue
+        for r, a in enumerate(sampled[c]):
+            res.count({'nested': nd, 'segments': case['segments'], 'mev': case['mev'], 'row': r, 'seed': case['np_seed']}, nontrivial=True)
+            if complete:
+                res.tally('nested_full_sample_equiv_checked')
+                b = refs[c][r]
+                if not close(a, b, 1e-8, 1e-8):
+                    res.violate('complete sampling: log likelihood of get_nested_logit() differs from the nested logit on the full choice set',
+                                {**sub, 'row': r}, a, b, where='GenerateModel.get_nested_logit')
+                    break
+            else:
+                res.tally('nested_partial_sample_model_checked')
+            if not complete:
+                # a nest of a sampled alternative without any row in the second sample: log(0) in the code
+                main_ids = [int(fnum(data.iloc[r][f'{case["id_col"]}_{i}'])) for i in range(J)]
+                mev_ids = [int(fnum(data.iloc[r][f'{MEV_PREFIX}{case["id_col"]}_{i}'])) for i in range(J2)]
+                if any(set(n['alts']) & set(main_ids) and not set(n['alts']) & set(mev_ids) for n in nd['nests']) or not math.isfinite(a):
+                    res.tally('nested_partial_sample_empty_nest_skipped')
+                    continue
+            full_row = [[k, f2b(fnum(data.iloc[r][k]))] for k in names]
+            lean_nests = [[f2b(float(n['mu'])), [int(x) for x in n['alts']]] for n in nd['nests']]
+            reqs = [{'op': 'nestedll', 'row': full_row, 'attributes': attributes, 'utility': lean_formula(case['utility']), 'J': J, 'J2': J2,
+                     'id_col': case['id_col'], 'nests': lean_nests}]
+            if complete:
+                ind_named = [[case['choice_col'], f2b(float(case['choices'][r]))]] + [[k, f2b(case['irows'][r][j])] for j, k in enumerate(case['icols'])]
+                reqs.append({'op': 'fullnestedll', 'ind': ind_named, 'alt_cols': case['cols'], 'ids': case['ids'],
+                             'alt_rows': [[f2b(v) for v in vals] for vals in case['values']],
+                             'combined': [[n, lean_formula(f)] for n, f in case['combined']],
+                             'utility': lean_formula(case['utility']), 'chosen': case['choices'][r], 'nests': lean_nests})
+
+            def cb(ans, a=a, sub=sub, r=r, ref=refs[c][r] if complete else None):
+                ll = ans[0].get('ll')
+                if ll is None or not close(b2f(ll), a, 1e-9, 1e-9):
+                    res.diverge('likelihood of get_nested_logit() (real engine) vs Sampling.nestedSampledLL', {**sub, 'row': r},
+                                None if ll is None else b2f(ll), a)
+                if ref is not None:
+                    fl = ans[1].get('ll')
+                    if fl is None or not close(b2f(fl), ref, 1e-9, 1e-9):
+                        res.diverge('lognested on the full choice set (real engine) vs Sampling.fullNestedLL', {**sub, 'row': r},
+                                    None if fl is None else b2f(fl), ref)
+                    if fl is not None and ll is not None and not close(b2f(fl), b2f(ll), 1e-9, 1e-9):
+                        res.diverge('model: nestedSampledLL vs fullNestedLL under complete sampling (theorem nested_full_sample_equiv on Float)',
+                                    {**sub, 'row': r}, b2f(ll), b2f(fl))
+
+            ctx.batch.add_many(reqs, cb)
+
+
+def check_nested_full(ctx, res, case, rng, nests_def=None):
+    """one nest configuration (replays)"""
+    check_nested(ctx, res, case, rng, configs=None if nests_def is None else [nests_def], n_configs=1)
 
 
 def full_reference(case, make_model):
@@ -914,30 +1037,92 @@ def check_context(ctx, res, case, kind, raw):
     ctx.batch.add({'op': 'context', 'alts': case['ids'], 'segments': case['segments'], 'sizes': case['sizes']}, cb)
 
 
+PARTITION_KINDS = ['valid', 'valid_nofull', 'overlap', 'overlap_far', 'overlap_chain', 'duplicate_segment', 'overlap_many',
+                   'missing', 'extra', 'empty_segment', 'empty_full']
+
+
 def gen_partition_case(rng):
-    n = rng.randint(2, 9)
+    """lists of 1-6 segments; the faults are placed at random positions of the list (any pair of
+    segments, adjacent or not, first/last, several pairs), with or without a given full set"""
+    n = rng.randint(2, 12)
     ids = rng.sample(range(-20, 60), n)
-    m = min(rng.randint(1, 3), n)
+    m = min(rng.choice([1, 2, 3, 3, 4, 4, 5, 6]), n)
     cuts = sorted(rng.sample(range(1, n), m - 1)) if m > 1 else []
     segs = [sorted(ids[a:b]) for a, b in zip([0] + cuts, cuts + [n])]
-    kind = rng.choice(['valid', 'valid_nofull', 'overlap', 'missing', 'extra', 'empty_segment', 'empty_full'])
+    rng.shuffle(segs)
+    kind = rng.choice(PARTITION_KINDS)
     full = sorted(ids)
+
+    def share(i, j, how_many=1):
+        """put `how_many` elements of segment i into segment j as well"""
+        for x in rng.sample(segs[i], min(how_many, len(segs[i]))):
+            segs[j] = sorted(set(segs[j]) | {x})
+
+    def grow(to):
+        # more segments (split off fresh ids) so that distant positions exist
+        while len(segs) < to:
+            fresh = rng.choice([v for v in range(60, 90) if v not in full])
+            full.append(fresh)
+            segs.insert(rng.randrange(len(segs) + 1), [fresh])
+
     if kind == 'valid_nofull':
         full = None
     elif kind == 'overlap':
-        if len(segs) < 2:
-            segs.append([segs[0][0]])
-        else:
-            segs[1] = sorted(set(segs[1]) | {segs[0][0]})
+        grow(2)
+        i, j = rng.sample(range(len(segs)), 2)
+        share(i, j, rng.choice([1, 1, 2, len(segs[i])]))
+    elif kind == 'overlap_far':
+        # the two overlapping segments are not neighbours in the list
+        grow(rng.choice([3, 3, 4, 5]))
+        i = rng.randrange(len(segs))
+        far = [j for j in range(len(segs)) if abs(i - j) >= 2]
+        if not far:
+            i, far = 0, [len(segs) - 1]
+        share(i, rng.choice(far), rng.choice([1, 1, 2]))
+    elif kind == 'overlap_chain':
+        # one element in three segments
+        grow(3)
+        i, j, k = rng.sample(range(len(segs)), 3)
+        x = rng.choice(segs[i])
+        segs[j] = sorted(set(segs[j]) | {x})
+        segs[k] = sorted(set(segs[k]) | {x})
+    elif kind == 'duplicate_segment':
+        i = rng.randrange(len(segs))
+        segs.insert(rng.randrange(len(segs) + 1), list(segs[i]))
+    elif kind == 'overlap_many':
+        grow(3)
+        for _ in range(rng.randint(2, 3)):
+            i, j = rng.sample(range(len(segs)), 2)
+            share(i, j)
     elif kind == 'missing':
-        full = sorted(ids + [77])
+        full = sorted(full + [97])
     elif kind == 'extra':
-        segs[0] = sorted(segs[0] + [88])
+        j = rng.randrange(len(segs))
+        segs[j] = sorted(segs[j] + [98])
     elif kind == 'empty_segment':
         segs.insert(rng.randrange(len(segs) + 1), [])
     elif kind == 'empty_full':
         full = []
-    return {'segments': segs, 'full': full}, kind
+    if full and kind.startswith(('overlap', 'duplicate')) and rng.random() < 0.35:
+        full = None  # the union test cannot help: only the intersection test guards
+    return {'segments': segs, 'full': None if full is None else sorted(full)}, kind
+
+
+def small_partition_cases(universe, max_len):
+    """bounded-exhaustive: every list of at most `max_len` segments, each any subset of the universe
+    (the empty one included), with no full set / the union / the universe as full set"""
+    import itertools
+
+    subsets = [[x for b, x in enumerate(universe) if mask >> b & 1] for mask in range(2 ** len(universe))]
+    for length in range(max_len + 1):
+        for combo in itertools.product(subsets, repeat=length):
+            segs = [list(s) for s in combo]
+            union = sorted(set().union(*[set(s) for s in segs])) if segs else []
+            fulls = [None, sorted(universe)]
+            if union and union != sorted(universe):
+                fulls.append(union)
+            for full in fulls:
+                yield {'segments': segs, 'full': full}
 
 
 def run_partition(pc):
@@ -990,6 +1175,35 @@ CORPUS = [
      'segments': [[4, 17], [9, 30]], 'sizes': [2, 1], 'mev': None, 'choice_col': 'choice', 'icols': ['age'], 'irows': [[2.5], [3.0]], 'choices': [17, 4],
      'combined': [['sq', ['+', ['*', ['v', 'a'], ['v', 'a']], ['v', 'b2']]]],
      'utility': ['/', ['+', ['*', ['b', 'b1', 0.5], ['v', 'a']], ['*', ['v', 'a'], ['v', 'age']]], ['c', 64.0]], 'share': True, 'np_seed': 3},
+]
+
+# Partition: overlaps between segments that are not neighbours in the list, with / without full set
+PARTITION_CORPUS = [
+    {'segments': [[21, 4], [9, 30, 17], [11], [4, 2]], 'full': [2, 4, 9, 11, 17, 21, 30]},
+    {'segments': [[40, 7], [12], [9, 3], [7]], 'full': None},
+    {'segments': [[2], [5, 8], [11], [14], [2, 17]], 'full': [2, 5, 8, 11, 14, 17]},
+    {'segments': [[1, 2], [3], [4], [3]], 'full': [1, 2, 3, 4]},
+    {'segments': [[1, 2], [3, 4], [5, 6]], 'full': [1, 2, 3, 4, 5, 6]},
+]
+
+# nested logit on the sample: one merged database, nest labels distinct / repeated / absent / equal to an
+# automatic one, shared nest parameter, plain numbers, old tuple syntax, a singleton nest
+_NESTED_CASE = {
+    'share': False, 'id_col': 'ID', 'ids': [11, 12, 13, 14, 15, 16, 17], 'cols': ['cost', 'x_1'],
+    'values': [[1.5, 0.25], [2.0, 3.5], [4.25, 1.0], [3.0, -2.0], [0.5, 2.75], [2.5, 0.0], [1.0, 1.5]], 'int_valued': False,
+    'segments': [[11, 12], [13, 14, 15], [16, 17]], 'sizes': [2, 3, 2], 'mev': {'segments': [[11, 12, 13, 14], [15, 16, 17]], 'sizes': [4, 3]},
+    'choice_col': 'choice', 'icols': ['inc'], 'irows': [[1.0], [2.5], [1.75]], 'choices': [13, 16, 11],
+    'combined': [['cd', ['*', ['v', 'x_1'], ['v', 'inc']]]],
+    'utility': ['/', ['+', ['*', ['b', 'B_cost', -0.75], ['v', 'cost']], ['*', ['b', 'B_d', -0.25], ['v', 'cd']]], ['c', 2.0]], 'np_seed': 2024,
+}
+NESTED_CORPUS = [
+    (_NESTED_CASE, [
+        {'syntax': 'objects', 'mu_mode': 'beta', 'nests': [{'mu': 1.75, 'alts': [11, 13, 15], 'name': 'north'}, {'mu': 1.25, 'alts': [12, 16, 17], 'name': 'south'}]},
+        {'syntax': 'objects', 'mu_mode': 'beta', 'nests': [{'mu': 1.75, 'alts': [11, 13, 15], 'name': 'zone'}, {'mu': 1.25, 'alts': [12, 16, 17], 'name': 'zone'}]},
+        {'syntax': 'objects', 'mu_mode': 'beta', 'nests': [{'mu': 2.0, 'alts': [15, 11], 'name': None}, {'mu': 1.5, 'alts': [17, 12, 14], 'name': 'nest_1'}, {'mu': 3.0, 'alts': [16], 'name': None}]},
+        {'syntax': 'objects', 'mu_mode': 'shared', 'nests': [{'mu': 1.5, 'alts': [11, 12], 'name': 'a'}, {'mu': 1.5, 'alts': [13, 17, 16], 'name': 'b'}]},
+        {'syntax': 'tuples', 'mu_mode': 'float', 'nests': [{'mu': 1.25, 'alts': [14, 13], 'name': None}, {'mu': 2.0, 'alts': [15, 16, 11], 'name': None}]},
+    ]),
 ]
 
 # input of known finding F-C19-1 (kept identical to known_findings.d/C19.json)
@@ -1047,24 +1261,37 @@ def check(ctx) -> Result:
     for _ in range(ctx.n(40, 500)):
         case = gen_case(rng, complete=True)
         run_case(ctx, res, case, 1)
-    # nested logit generated on complete samples (numerical relation only)
+    # nested / cross-nested logit generated on the sample: complete sampling of both samples (the
+    # equivalence clause, real engine on both sides) and partial sampling (Lean model vs engine)
+    for case, configs in NESTED_CORPUS:
+        check_nested(ctx, res, case, rng, configs=configs)
+        res.tally('corpus')
     done = 0
     for _ in range(ctx.n(60, 900)):
-        if done >= ctx.n(10, 150):
+        if done >= ctx.n(12, 150):
             break
         case = gen_case(rng, complete=True, with_mev=True, size=rng.randint(4, 10))
-        if sorted(set().union(*[set(x) for x in case['mev']['segments']])) != sorted(case['ids']):
-            continue
         case['share'] = False
-        check_nested_full(ctx, res, case, rng)
-        check_cnl_full(ctx, res, case, rng)
+        check_nested(ctx, res, case, rng, n_configs=ctx.n(3, 4))
+        if sorted(set().union(*[set(x) for x in case['mev']['segments']])) == sorted(case['ids']):
+            check_cnl_full(ctx, res, case, rng)
         done += 1
+    for _ in range(ctx.n(6, 100)):
+        case = gen_case(rng, complete=False, with_mev=True, size=rng.randint(4, 10))
+        case['share'] = False
+        check_nested(ctx, res, case, rng, n_configs=2)
     for _ in range(ctx.n(150, 2000)):
         case, kind, raw = gen_context_case(rng)
         check_context(ctx, res, case, kind, raw)
-    for _ in range(ctx.n(150, 2000)):
+    for pc in PARTITION_CORPUS:
+        check_partition_case(ctx, res, pc, 'corpus')
+    for _ in range(ctx.n(300, 4000)):
         pc, kind = gen_partition_case(rng)
         check_partition_case(ctx, res, pc, kind)
+    # bounded-exhaustive: all lists of <= 3 (thorough: 4) segments over a universe of 3 ids, <= 4 over 2 ids
+    for universe, max_len in [[(7, -2, 30), ctx.n(3, 4)], [(5, 11), 4]] + ctx.n([], [[(0, 9, 4, 1), 3]]):
+        for pc in small_partition_cases(list(universe), max_len):
+            check_partition_case(ctx, res, pc, 'small')
     ctx.batch.flush()
     return res
 
@@ -1097,7 +1324,21 @@ def search(ctx, res, broken):
         if r2.violations:
             res.violations.extend(r2.violations[:1])
             return
-    for _ in range(200):
+    for _ in range(40):
+        r2 = Result()
+        case = gen_case(rng, complete=True, with_mev=True, size=rng.randint(4, 10))
+        case['share'] = False
+        try:
+            check_nested(shim, r2, case, rng, n_configs=3)
+            if sorted(set().union(*[set(x) for x in case['mev']['segments']])) == sorted(case['ids']):
+                check_cnl_full(shim, r2, case, rng)
+        except Exception as e:  # noqa: BLE001
+            res.notes.append(f'search: {type(e).__name__}: {e}')
+            continue
+        if r2.violations:
+            res.violations.extend(r2.violations[:1])
+            return
+    for _ in range(400):
         r2 = Result()
         case, kind, raw = gen_context_case(rng)
         check_context(shim, r2, case, kind, raw)
